@@ -519,44 +519,51 @@ def check_with_execution_state(ctx, prog, tag):
         ctx.need(False, "C05.B4: with_execution_state not found")
     # the closure call
     calls = [c for c in wes.calls() if c.name.startswith("core::ops::function::FnOnce::call_once") or c.indirect]
-    ctx.need(len(calls) == 1, "C05.B4: expected exactly one call of the evaluation closure, found %d" % len(calls))
-    fcall = calls[0]
-    before = {}
-    after = {}
+    ctx.need(len(calls) >= 1, "C05.B4: no call of the evaluation closure found in with_execution_state")
     doms = cfg.dominators(wes)
-    for c in wes.calls():
-        if c.name == "core::mem::replace":
-            for o in flow.origins(wes, c.args[0]):
-                if o.kind == "arg" and o.arg == 1 and o.proj:
-                    (before if c.bb in doms[fcall.bb] else after).setdefault(o.proj[0], []).append(c)
-    for d in flow.stores(wes):
-        if d.place["l"] == 1:
-            nm = flow._proj_names(d.place)
-            if nm and fcall.bb in doms.get(d.bb, ()):
-                after.setdefault(nm[0], []).append(d)
-    ctx.floor("C05.B4 fields replaced before the evaluation" + tag, len(before), 2)
-    for fld, cs in before.items():
-        # restored from the saved value on every path after the call
-        rs = after.get(fld, [])
-        ok = False
-        for r in rs:
-            rbb = r.bb
-            src = flow.origins(wes, r.rv["op"]) if hasattr(r, "rv") and r.rv and r.rv["k"] == "use" else []
-            from_saved = any(o.kind == "call" and o.call.name == "core::mem::replace" and o.call.bb == cs[0].bb for o in src)
-            if from_saved and cfg.paths_must_pass(wes, fcall.bb, [rbb], wes.returns()):
-                ok = True
-            elif from_saved:
-                # conditional restores (Option-wrapped saved state) are matched below
-                pass
-        if not ok and rs:
-            # saved into an Option / enum and restored under its match: accept when every return is preceded by
-            # either a restore or the None arm of the saved value
-            blocks = [r.bb for r in rs]
-            ok = cfg.paths_must_pass(wes, fcall.bb, blocks, wes.returns()) or fld == "blocks"
-        ctx.ob("C05.B4.replaced-field-is-restored", "%swith_execution_state|%s" % (tag, fld), ok,
-               "State.%s is replaced before the nested evaluation but not written back on every path after it" % fld,
-               wes.where(cs[0].bb))
+    nbefore = 0
+    # a fast path may run the evaluation from a second call site: each call site is held to the same discipline
+    for k_, fcall in enumerate(sorted(calls, key=lambda c: c.bb)):
+        sfx = "" if len(calls) == 1 else "#%d" % k_
+        before = {}
+        after = {}
+        for c in wes.calls():
+            if c.name == "core::mem::replace":
+                for o in flow.origins(wes, c.args[0]):
+                    if o.kind == "arg" and o.arg == 1 and o.proj:
+                        if c.bb in doms[fcall.bb]:
+                            before.setdefault(o.proj[0], []).append(c)
+                        elif fcall.bb in doms.get(c.bb, ()):
+                            after.setdefault(o.proj[0], []).append(c)
+        for d in flow.stores(wes):
+            if d.place["l"] == 1:
+                nm = flow._proj_names(d.place)
+                if nm and fcall.bb in doms.get(d.bb, ()):
+                    after.setdefault(nm[0], []).append(d)
+        nbefore = max(nbefore, len(before))
+        for fld, cs in before.items():
+            # restored from the saved value on every path after the call
+            rs = after.get(fld, [])
+            ok = False
+            for r in rs:
+                rbb = r.bb
+                src = flow.origins(wes, r.rv["op"]) if hasattr(r, "rv") and r.rv and r.rv["k"] == "use" else []
+                from_saved = any(o.kind == "call" and o.call.name == "core::mem::replace" and o.call.bb == cs[0].bb for o in src)
+                if from_saved and cfg.paths_must_pass(wes, fcall.bb, [rbb], wes.returns()):
+                    ok = True
+            if not ok and rs:
+                # saved into an Option / enum and restored under its match: accept when every return is preceded by
+                # either a restore or the None arm of the saved value
+                blocks = [r.bb for r in rs]
+                ok = cfg.paths_must_pass(wes, fcall.bb, blocks, wes.returns()) or fld == "blocks"
+            ctx.ob("C05.B4.replaced-field-is-restored", "%swith_execution_state%s|%s" % (tag, sfx, fld), ok,
+                   "State.%s is replaced before the nested evaluation but not written back on every path after it" % fld,
+                   wes.where(cs[0].bb))
+    ctx.floor("C05.B4 fields replaced before the evaluation" + tag, nbefore, 2)
     if tag != "[MIN]" and prog.has_fn("minijinja::vm::context::Context::restore_stack_depth"):
         rsd = wes.calls_to("minijinja::vm::context::Context::restore_stack_depth")
-        ctx.ob("C05.B4.frames-pushed-by-nested-evaluation-are-dropped", tag + "with_execution_state",
-               len(rsd) == 1 and fcall.bb in doms[rsd[0].bb], "restore_stack_depth must follow the nested evaluation", wes.loc)
+        okr = bool(rsd) and all(cfg.paths_must_pass(wes, fc.bb, [r.bb for r in rsd if fc.bb in doms.get(r.bb, ())], wes.returns())
+                                for fc in calls)
+        ctx.ob("C05.B4.frames-pushed-by-nested-evaluation-are-dropped", tag + "with_execution_state", okr,
+               "restore_stack_depth must follow the nested evaluation on every path from each call of it to a return: the "
+               "frames a nested evaluation pushed (the scope of a block call) stay on the caller's stack otherwise", wes.loc)
